@@ -227,3 +227,11 @@ func (mAddr *ManagedAddress) VerifScript() []byte { return mAddr.scriptHash }
 //@   ensures[C13] result1 == (ghost("nfields", mnemonic) == 12 || ghost("nfields", mnemonic) == 15 || ghost("nfields", mnemonic) == 18 || ghost("nfields", mnemonic) == 21 || ghost("nfields", mnemonic) == 24)
 //@   ensures[C13] result1 ==> len(result0) == ghost("nfields", mnemonic) && (forall qi_ int :: 0 <= qi_ && qi_ < len(result0) ==> result0[qi_] == ghosts("field", mnemonic, qi_))
 //@   ensures !result1 ==> len(result0) == 0
+
+// NewEntropy (moved here from the safety-only sweep): it hands out an entropy only of a legal size, and of exactly
+// the size asked for -- bitSize/8 bytes; the size test is the callee's contract, not its body.
+//@ func NewEntropy
+//@   props C13 C19
+//@   modifies *
+//@   ensures[C13] !(bitSize == 128 || bitSize == 160 || bitSize == 192 || bitSize == 224 || bitSize == 256) ==> result1 == ErrEntropyLengthInvalid && len(result) == 0
+//@   ensures[C13] result1 == nil ==> len(result) * 8 == bitSize
